@@ -26,6 +26,7 @@ pub fn shell_instr(i: &Instr) -> String
     {
         Instr::EmitCopy { t, src } => format!("cat {} > {}", src, t),
         Instr::EmitCopyP { t, src } => format!("cp -p {} {}", src, t),
+        Instr::EmitLink { t, src } => format!("test -e {} && ln -sf \"$PWD/{}\" {}", src, src, t),
         Instr::EmitConst { t, tag } => format!("printf '%s' '{}' > {}", tag, t),
         Instr::EmitMix { t, tag, srcs } =>
         {
